@@ -254,6 +254,10 @@ def only_unauthentic_second_references(sc, v):
     rewritten = [m_['p'] for m_ in sc.get('muts', []) if m_.get('m') == 'manifest']
     depth = lambda p_: len([c_ for c_ in os.path.dirname(p_).split('/') if c_])
     k_level = min([depth(p_) for p_ in rewritten] or [99])
+    if v.chain and sc.get('top', 'Manifest') in [m_['p'] for m_ in sc.get('muts', []) if m_.get('m') == 'manifest'] and v.partial:
+        # the attacker rewrote the top-level Manifest itself: there is no untouched Manifest above the change, what is
+        # left over from the old state (stale second references) may or may not be met first
+        return True
     if v.chain and all(c in v.partial and c in v.chain_uncomputable for c in v.chain):
         # matched one accepted parent's entry; the other reference cannot be computed here at all (it contradicts nothing):
         # refused or not depending on which reference the loader meets first
